@@ -154,3 +154,77 @@ def subst_object_aliases(fi: FuncInfo, rounds: int = 3) -> FuncInfo:
         ast.fix_missing_locations(new)
         cur = FuncInfo(fi.module, fi.qualname, new, fi.cls, fi.parent)
     return cur
+
+
+# ---------------------------------------------------------------------------
+# literals hoisted to module-level constants
+
+
+def _literal(e: ast.AST) -> bool:
+    if isinstance(e, ast.Constant):
+        return isinstance(e.value, (str, bytes, int, float, bool, type(None)))
+    if isinstance(e, (ast.Tuple,)):
+        return all(_literal(x) for x in e.elts)
+    if isinstance(e, ast.Call) and isinstance(e.func, ast.Name) and e.func.id in ("frozenset", "tuple") and len(e.args) == 1 and not e.keywords:
+        return isinstance(e.args[0], (ast.Tuple, ast.List, ast.Set)) and all(_literal(x) for x in e.args[0].elts)
+    return False
+
+
+def inline_constants(fi: FuncInfo) -> FuncInfo:
+    """Replace loads of module-level names that are bound (once, at module level) to a plain literal — string, bytes,
+    number, tuple/frozenset of those — by the literal, unless the function shadows the name.  ``_SLASH = "/"`` …
+    ``x.lstrip(_SLASH)`` is then analysed exactly like ``x.lstrip("/")``.  (Compiled regexes are resolved by the
+    pattern resolvers, not here.)"""
+    mod = fi.module
+    locs = q.local_names(fi.node) if hasattr(fi.node, "args") else set()
+    counts = {}
+    for st in mod.tree.body:
+        for p in q.assigned_paths(st) if isinstance(st, (ast.Assign, ast.AnnAssign, ast.AugAssign)) else ():
+            counts[p] = counts.get(p, 0) + 1
+    table = {}
+    for name, value in mod.assigns.items():
+        if name in locs or counts.get(name, 0) != 1 or not _literal(value):
+            continue
+        lit = value
+        if isinstance(value, ast.Call):  # frozenset((..)) / tuple([..]) -> a tuple literal (membership and iteration agree)
+            lit = ast.Tuple(elts=list(value.args[0].elts), ctx=ast.Load())
+        table[name] = lit
+    if not table or not any(isinstance(n, ast.Name) and n.id in table for n in ast.walk(fi.node)):
+        return fi
+    new = copy.deepcopy(fi.node)
+
+    class T(ast.NodeTransformer):
+        def visit_Name(self, n):
+            if isinstance(n.ctx, ast.Load) and n.id in table:
+                return ast.copy_location(copy.deepcopy(table[n.id]), n)
+            return n
+
+    new = T().visit(new)
+    ast.fix_missing_locations(new)
+    return FuncInfo(fi.module, fi.qualname, new, fi.cls, fi.parent)
+
+
+def through_local(fi: FuncInfo, test: ast.AST, depth: int = 4) -> ast.AST:
+    """A branch test with its *tested operand* looked through an explaining local:
+    ``m = P.search(x)`` … ``if m is None`` -> ``P.search(x) is None``;  ``bad = p.startswith("//")`` … ``if bad`` ->
+    the call.  Only the operand that is tested is resolved (the subject ``x`` keeps its name)."""
+    from .x_flow import unique_def
+
+    def res(e, d):
+        while isinstance(e, ast.Name) and d > 0:
+            df = unique_def(fi, e.id)
+            if df is None:
+                return e
+            e, d = df, d - 1
+        return e
+
+    if isinstance(test, ast.UnaryOp) and isinstance(test.op, ast.Not):
+        return ast.copy_location(ast.UnaryOp(op=ast.Not(), operand=through_local(fi, test.operand, depth)), test)
+    if isinstance(test, ast.Name):
+        r = res(test, depth)
+        return through_local(fi, r, depth - 1) if r is not test and depth > 0 else r
+    if isinstance(test, ast.Compare) and len(test.ops) == 1 and isinstance(test.left, ast.Name):
+        r = res(test.left, depth)
+        if r is not test.left:
+            return ast.copy_location(ast.Compare(left=r, ops=test.ops, comparators=test.comparators), test)
+    return test
